@@ -41,12 +41,17 @@ METRICS = ["ENERGY|LATENCY|RESOURCE_USAGE", "ENERGY|LATENCY", "ENERGY|LATENCY", 
 
 
 @st.composite
-def cases(draw):
-    d = draw(G.specs(shapes=("chain2", "chain2", "chain2", "elementwise2", "matmul", "chain3", "diamond"),
-                     levels=(2, 2, 2, 3), metrics=METRICS, bound_pool=[1, 2, 2, 3, 4, 6], allow_leak=True, max_ops=200))
-    if d["shape"] in ("chain3", "diamond") or len(d["nodes"]) > 3:
-        d["bounds"] = {k: min(v, 4 if len(d["einsums"]) == 1 else 3) for k, v in d["bounds"].items()}
-        # sizes were drawn for the old bounds: redraw relative to the new tensor sizes
+def cases(draw, salt=0):
+    d = draw(G.specs(shapes=("chain2", "chain3", "chain2", "elementwise2", "chain3", "matmul", "diamond"),
+                     levels=(2, 2, 2, 3), metrics=METRICS[salt % len(METRICS):] + METRICS[:salt % len(METRICS)], bound_pool=[1, 2, 2, 3, 4, 6], allow_leak=True, max_ops=200))
+    three_levels = len(d["nodes"]) > 3
+    if three_levels and len(d["einsums"]) >= 3:
+        d["nodes"] = [n for n in d["nodes"] if n["name"] != "Reg"]      # 3 Einsums x 3 memory levels costs minutes per run
+        three_levels = False
+    if len(d["einsums"]) >= 3 or three_levels:
+        cap = 3 if three_levels else 4
+        d["bounds"] = {k: min(v, cap) for k, v in d["bounds"].items()}
+        # sizes were drawn for the old bounds: clamp relative to the new tensor sizes
         bits = list(d["bits"].values())[0]
         tot = sum(G.tensor_sizes(d).values())
         for n in d["nodes"]:
@@ -175,6 +180,19 @@ def is_fused(tree, intermediates):
 
 
 def check(desc, col):
+    import time
+
+    t0 = time.time()
+    try:
+        _check(desc, col)
+    finally:
+        dt = time.time() - t0
+        sp = desc["spec"]
+        if dt > 60:
+            col.label(f"slow_case>60s:{sp.get('shape')}:levels{sum(n['type'] == 'Memory' for n in sp['nodes'])}")
+
+
+def _check(desc, col):
     sp = desc["spec"]
     einsums = [e["name"] for e in sp["einsums"]]
     _, inter, _, _ = G.einsum_tensors(sp)
@@ -304,7 +322,7 @@ def check(desc, col):
                                     f"standalone gives {h.get(c, 0.0)}", key="detail:per-einsum-column")
 
 
-N = {"quick": 48, "thorough": 480}
+N = {"quick": 32, "thorough": 480}
 NSHARDS = 16
 QUICK_BUDGET_S = 500
 THOROUGH_BUDGET_S = 3000
@@ -318,7 +336,9 @@ def run_shard(shard, col):
     import os
 
     # VF_NO_SHRINK=1 (mutation experiments only): skip Hypothesis shrinking, each step of which is a mapper run
-    drive(cases(), check, n=shard["n"], seed=hash32(shard["seed"], "C04", shard["k"]), col=col,
+    # the metric pool is rotated per shard: with 2-3 examples per shard Hypothesis' preference for the first element of
+    # sampled_from would starve the other metric sets
+    drive(cases(shard["k"] + hash32(shard["seed"], "C04salt") % 8), check, n=shard["n"], seed=hash32(shard["seed"], "C04", shard["k"]), col=col,
           shrink=os.environ.get("VF_NO_SHRINK") != "1")
 
 
